@@ -52,6 +52,12 @@ fn main() {
     }
     return;
   }
+  if args[0] == "c12rec" {
+    let text = std::fs::read_to_string(&args[1]).unwrap();
+    let case: props::c12::Case = serde_json::from_str(&text).unwrap();
+    props::c12::trace(&case);
+    return;
+  }
   let id = args[1].clone();
   let code = match id.as_str() {
     "C01" => runner::dispatch(props::c01::spec(), &args),
@@ -64,6 +70,8 @@ fn main() {
     "C08" => runner::dispatch(props::c08::spec(), &args),
     "C09" => runner::dispatch(props::c09::spec(), &args),
     "C10" => runner::dispatch(props::c10::spec(), &args),
+    "C11" => runner::dispatch(props::c11::spec(), &args),
+    "C12" => runner::dispatch(props::c12::spec(), &args),
     "C13" => runner::dispatch(props::c13::spec(), &args),
     "C14" => runner::dispatch(props::c14::spec(), &args),
     "C15" => runner::dispatch(props::c15::spec(), &args),
